@@ -839,6 +839,8 @@ impl Adf {
 
         log::debug!("start learning loop");
         loop {
+            #[cfg(adf_obdd_verif)]
+            verif_trace::emit(&cur_interpr, backtrack, choice, stack.len(), interpr_history.len());
             log::trace!("interpr: {:?}", cur_interpr);
             log::trace!("choice: {}", choice);
             if choice {
@@ -857,6 +859,8 @@ impl Adf {
             if backtrack {
                 backtrack = false;
                 if stack.is_empty() {
+                    #[cfg(adf_obdd_verif)]
+                    verif_trace::done();
                     break;
                 }
                 while let Some((choice, ng)) = stack.pop() {
@@ -1370,5 +1374,46 @@ mod test {
             fcs.iter().map(|t| t.1).collect::<Vec<_>>(),
             vec![(0, 0), (0, 0), (0, 0), (0, 0)]
         );
+    }
+}
+
+/// Search tracer (verification hook, only built with `--cfg adf_obdd_verif`): when a sink is installed on the current thread,
+/// the nogood-learning loop records its loop-carried state at the head of every iteration.
+#[cfg(adf_obdd_verif)]
+pub mod verif_trace {
+    use crate::datatypes::Term;
+    use std::cell::RefCell;
+
+    /// One observation: (interpretation, backtrack flag, choice flag, stack length, history length); `None` marks the end of a search.
+    pub type Event = Option<(Vec<Term>, bool, bool, usize, usize)>;
+
+    thread_local! {
+        static SINK: RefCell<Option<Vec<Event>>> = const { RefCell::new(None) };
+    }
+
+    /// Installs an empty sink on the current thread.
+    pub fn install() {
+        SINK.with(|s| *s.borrow_mut() = Some(Vec::new()));
+    }
+
+    /// Removes the sink and returns what was recorded.
+    pub fn take() -> Vec<Event> {
+        SINK.with(|s| s.borrow_mut().take().unwrap_or_default())
+    }
+
+    pub(crate) fn emit(interpr: &[Term], backtrack: bool, choice: bool, stack: usize, hist: usize) {
+        SINK.with(|s| {
+            if let Some(v) = s.borrow_mut().as_mut() {
+                v.push(Some((interpr.to_vec(), backtrack, choice, stack, hist)));
+            }
+        });
+    }
+
+    pub(crate) fn done() {
+        SINK.with(|s| {
+            if let Some(v) = s.borrow_mut().as_mut() {
+                v.push(None);
+            }
+        });
     }
 }
